@@ -255,6 +255,69 @@ class Rejections(_Cfg):
         yield 'canary:opposite_outcome', (exc is None) != (st.inst['expect'] == 'none')
 
 
+class ControllerGuards(_Cfg):
+    """controller_nonMPI.__init__ on per-level (list-valued) parameters: time-parallel multi-level runs are rejected iff SOME level lacks the
+    right end point as a node; several sweeps are rejected iff they are requested on the COARSEST (last) level; everything else is accepted
+    and the controller records the per-level sweep counts of the description"""
+
+    name = 'controller_nonMPI.__init__ [per-level guards]'
+    target = (CTRL, 'controller_nonMPI.__init__')
+    from pySDC.core.errors import ControllerError
+
+    expected_exceptions = (Exception,)
+
+    def instances(self, tier):
+        import itertools
+
+        out = []
+        quads = ('RADAU-RIGHT', 'LOBATTO', 'GAUSS', 'RADAU-LEFT')
+        for nl in (2, 3):
+            combos = list(itertools.product(quads, repeat=nl))
+            if nl == 3:
+                combos = [c for c in combos if sum(q in ('GAUSS', 'RADAU-LEFT') for q in c) <= 1]
+            for c in combos:
+                for n in (1, 2):
+                    out.append(dict(kind='quad', nlevels=nl, quad=list(c), n=n))
+        for nl in (2, 3, 4):
+            for c in itertools.product((1, 2), repeat=nl):
+                out.append(dict(kind='nsweeps', nlevels=nl, nsweeps=list(c), n=1))
+        out.append(dict(kind='nsweeps', nlevels=3, nsweeps=[3, 2, 1], n=2))
+        out.append(dict(kind='nsweeps', nlevels=1, nsweeps=[3], n=1))
+        return out
+
+    def build(self, inst, mk):
+        from pySDC.implementations.controller_classes.controller_nonMPI import controller_nonMPI
+
+        nl = inst['nlevels']
+        d = base_description(min(nl, 3))
+        if nl == 4:
+            d['sweeper_params']['num_nodes'] = [3, 3, 2, 1]
+        if inst['kind'] == 'quad':
+            d['sweeper_params']['quad_type'] = list(inst['quad'])
+            d['sweeper_params']['num_nodes'] = [3, 3, 2, 2][:nl]  # every quadrature type exists for these counts
+        else:
+            d['level_params']['nsweeps'] = list(inst['nsweeps']) if nl > 1 else inst['nsweeps'][0]
+        st = State(inst=inst)
+        st.call = lambda: controller_nonMPI(num_procs=inst['n'], controller_params=dict(logger_level=40, dump_setup=False), description=d)
+        return st
+
+    def post(self, st, old, result, exc):
+        inst = st.inst
+        nl = inst['nlevels']
+        if inst['kind'] == 'quad':
+            bad = inst['n'] > 1 and nl > 1 and any(q in ('GAUSS', 'RADAU-LEFT') for q in inst['quad'])
+        else:
+            bad = nl > 1 and inst['nsweeps'][-1] > 1
+        yield 'rejected_with_ControllerError_iff_the_description_is_invalid', isinstance(exc, self.ControllerError) == bad and (exc is None or bad)
+        if exc is None and inst['kind'] == 'nsweeps':
+            yield 'per_level_sweep_counts_recorded', list(result.nsweeps) == list(inst['nsweeps']) and all(L.params.nsweeps == k for L, k in zip(result.MS[0].levels, inst['nsweeps']))
+        if exc is None and inst['kind'] == 'quad':
+            yield 'per_level_quadrature_types_used', [L.sweep.coll.quad_type for L in result.MS[0].levels] == list(inst['quad'])
+
+    def canary(self, st, old, result, exc):
+        yield 'canary:always_accepted', exc is None and (st.inst['kind'] == 'nsweeps' and st.inst['nsweeps'][-1] > 1 and st.inst['nlevels'] > 1)
+
+
 # ------------------------------------------------------------------------------------------------ frozen classes
 class Frozen(_Cfg):
     name = 'FrozenClass.__setattr__/__getattr__/add_attr/get'
@@ -519,5 +582,5 @@ class UnknownNamesAtFirstUse(_Cfg):
         yield 'canary:opposite', (exc is None) == (st.inst['guess'] == 'bogus')
 
 
-CONTRACTS = [DictToList, Hierarchy, Rejections, Frozen, ReadOnlyParams, ConvergenceControllerSetup, UnknownNamesAtFirstUse]
+CONTRACTS = [DictToList, Hierarchy, Rejections, ControllerGuards, Frozen, ReadOnlyParams, ConvergenceControllerSetup, UnknownNamesAtFirstUse]
 UNDECIDED = ['ParaDiag option conflicts are checked under C15', 'unknown residual_type: C03.compute_residual.unknown_type_rejected; unknown predict_type / stage: C07.predict / C07.pfasst']
